@@ -22,7 +22,7 @@ use ntp_proto::{
     SourceConfig, SynchronizationConfig,
 };
 
-use super::c11_task::{self as rig, Case, Cfg, Io, Kind, MsgKind, Plan, Sym, Ts, Ver, Worker, cfg};
+use super::c11_task::{self as rig, Atom, Case, Cfg, Io, Kind, MsgKind, Plan, Ts, Ver, Worker, cfg, plan};
 use super::common::{self, Ctx};
 use crate::daemon::config::TimestampMode;
 use crate::daemon::ntp_source::{SourceChannels, SourceTask};
@@ -56,6 +56,8 @@ struct SpawnObs {
     msgs: Vec<MsgKind>,
     finished: bool,
     problem: Option<String>,
+    /// a real-time dead-man expired
+    deadman: bool,
     text: String,
 }
 
@@ -89,7 +91,7 @@ async fn spawn_drive(io: &mut Io, case: &Case) -> SpawnObs {
     let (tx, mut rx) = tokio::sync::mpsc::channel(32);
     let manager = NtpManager::new(SynchronizationConfig::default(), Arc::new([]));
     let (source, initial) =
-        manager.new_source(io.server_addr, source_config, pv, rig::rec_ctl(rec.clone(), limits.min), None, index);
+        manager.new_source(io.server_addr, source_config, pv, rig::rec_ctl(rec.clone(), PollInterval::from_byte(c.des as u8)), None, index);
     let start = tokio::time::Instant::now();
     let timer0 = io.log.timer.load(Ordering::SeqCst);
     // the production entry point
@@ -112,7 +114,8 @@ async fn spawn_drive(io: &mut Io, case: &Case) -> SpawnObs {
     let total = case.script.len() + rig::TAIL;
     let mut timer_seen = timer0;
     'polls: for i in 0..total {
-        let sym = case.script.get(i).copied().unwrap_or(Sym::N);
+        let none: Vec<Atom> = Vec::new();
+        let reaction = case.script.get(i).unwrap_or(&none).clone();
         // the timer branch must have run once more (i == 0: at virtual time 0, without any advance)
         let t0 = std::time::Instant::now();
         let mut n = 0u32;
@@ -135,6 +138,7 @@ async fn spawn_drive(io: &mut Io, case: &Case) -> SpawnObs {
             n += 1;
             rig::backoff(n);
             if t0.elapsed() > dead {
+                o.deadman = true;
                 o.problem = Some(format!("poll #{}: timer ran but no datagram, no message", i + 1));
                 break None;
             }
@@ -153,17 +157,22 @@ async fn spawn_drive(io: &mut Io, case: &Case) -> SpawnObs {
             ));
             break;
         }
-        // scripted answer + sentinel
-        let kind = match sym {
-            Sym::V => Some(Kind::Valid),
-            Sym::R => Some(Kind::Rate),
-            Sym::D => Some(Kind::Deny),
-            Sym::Q => Some(Kind::ValidAsking(c.max.saturating_add(2))),
-            _ => None,
-        };
-        if let Some(k) = kind {
-            let serial = io.next_serial();
-            let _ = io.server.send_to(&rig::build_answer(&req, k, serial), req.from);
+        // scripted answers + sentinel
+        let recv0 = io.log.recv.load(Ordering::SeqCst);
+        let mut n_answers = 0u64;
+        for atom in &reaction {
+            let kind = match atom {
+                Atom::V => Some(Kind::Valid),
+                Atom::R => Some(Kind::Rate),
+                Atom::D => Some(Kind::Deny),
+                Atom::Q | Atom::J | Atom::G | Atom::H => Some(Kind::ValidAsking(atom.asks(c.max).unwrap_or(c.max))),
+                _ => None,
+            };
+            if let Some(k) = kind {
+                let serial = io.next_serial();
+                let _ = io.server.send_to(&rig::build_answer(&req, k, serial), req.from);
+                n_answers += 1;
+            }
         }
         let (size, before) = match io.send_sentinel(req.from) {
             Ok(x) => x,
@@ -174,11 +183,14 @@ async fn spawn_drive(io: &mut Io, case: &Case) -> SpawnObs {
         };
         let t0 = std::time::Instant::now();
         let mut n = 0u32;
-        while !io.sentinel_seen(size, before) {
+        // done when the sentinel's log line appeared, or (a task that does not log short
+        // datagrams) when as many datagrams were taken as were sent
+        while !(io.sentinel_seen(size, before) || io.log.recv.load(Ordering::SeqCst) - recv0 >= n_answers + 1) {
             tokio::task::yield_now().await;
             n += 1;
             rig::backoff(n);
             if t0.elapsed() > dead || join.is_finished() {
+                o.deadman = t0.elapsed() > dead;
                 o.problem = Some(format!("poll #{}: sentinel never consumed", i + 1));
                 break 'polls;
             }
@@ -274,17 +286,27 @@ fn part_s(ctx: &Ctx) {
     let quick = ctx.quick();
     let mut plans: Vec<Plan> = Vec::new();
     let len = if quick { 3 } else { 5 };
-    plans.push(Plan { cfg: cfg(Ver::V4, 4, 10, Ts::Kr), alphabet: vec![Sym::N, Sym::V, Sym::R], len });
-    plans.push(Plan { cfg: cfg(Ver::V4, 4, 4, Ts::Ka), alphabet: vec![Sym::N, Sym::V, Sym::R], len: len - 1 });
-    plans.push(Plan { cfg: cfg(Ver::V5, 4, 6, Ts::Sw), alphabet: vec![Sym::N, Sym::V, Sym::R, Sym::Q], len: len - 1 });
-    plans.push(Plan { cfg: cfg(Ver::Auto, 0, 17, Ts::Kr), alphabet: vec![Sym::N, Sym::V, Sym::R], len: len - 1 });
+    plans.push(plan(cfg(Ver::V4, 4, 10, Ts::Kr), "VR", 1, len));
+    plans.push(plan(cfg(Ver::V4, 4, 4, Ts::Ka), "VR", 1, len - 1));
+    plans.push(plan(cfg(Ver::V5, 4, 6, Ts::Sw), "VRQ", 1, len - 1));
+    plans.push(plan(cfg(Ver::Auto, 0, 17, Ts::Kr), "VR", 1, len - 1));
+    // the longest intervals: exponent 17 configured, 18 and 20 asked for by an NTPv5 server
+    plans.push(plan(cfg(Ver::V4, 17, 17, Ts::Sw), "VR", 1, 2));
+    plans.push(plan(Cfg { des: 17, ..cfg(Ver::V4, 10, 17, Ts::Kr) }, "VR", 1, 2));
+    plans.push(plan(cfg(Ver::V4, 15, 17, Ts::Sw), "VR", 1, len));
+    plans.push(plan(cfg(Ver::V5, 4, 10, Ts::Sw), "VGHJ", 1, 2));
+    plans.push(plan(cfg(Ver::V5, 17, 17, Ts::Kr), "VGHJ", 1, 2));
     let mut offsets = Vec::new();
+    let mut reacts = Vec::new();
     let mut total = 0u64;
     for p in &plans {
         offsets.push(total);
-        total += common::pow(p.alphabet.len(), p.len);
+        let r = rig::reactions(&p.atoms, p.per_poll);
+        total += common::pow(r.len(), p.polls);
+        reacts.push(r);
     }
     ctx.set("spawn.cases_planned", total);
+    let stuck = std::sync::atomic::AtomicU64::new(0);
     common::par_for_with(
         total,
         2,
@@ -294,15 +316,29 @@ fn part_s(ctx: &Ctx) {
                 ctx.inc("cases_not_run");
                 return;
             };
+            if stuck.load(Ordering::SeqCst) >= 3 {
+                ctx.inc("cases_not_run");
+                return;
+            }
             let pi = offsets.partition_point(|o| *o <= idx) - 1;
             let plan = &plans[pi];
-            let word = common::word_of(idx - offsets[pi], plan.alphabet.len(), plan.len);
-            let case = Case { cfg: plan.cfg, script: word.iter().map(|i| plan.alphabet[*i]).collect() };
+            let word = common::word_of(idx - offsets[pi], reacts[pi].len(), plan.polls);
+            let case = Case { cfg: plan.cfg, script: word.iter().map(|i| reacts[pi][*i].clone()).collect() };
             let o = spawn_case(w, &case);
+            if o.deadman && stuck.fetch_add(1, Ordering::SeqCst) == 2 {
+                ctx.cap_hit("part S: three dead-man expiries, the remaining spawned cases were not run");
+                ctx.exhaustive(false);
+            }
             ctx.inc("spawn.cases");
             ctx.inc("evaluations");
             ctx.add("transitions", o.polls.len() as u64 * 3);
             ctx.add("spawn.polls", o.polls.len() as u64);
+            for (p, _, _) in &o.polls {
+                ctx.max("spawn.largest_exponent", (*p).max(0) as u64);
+                if *p >= 17 {
+                    ctx.inc("spawn.polls_at_exponent_17_or_more");
+                }
+            }
             ctx.distinct(common::hash_of(&o.text));
             if idx % 29 == 0 {
                 ctx.sample(o.text.clone());
@@ -321,11 +357,11 @@ fn check() {
         common::report_replay("C10", &a, &b, ctx.violation_count() > 0);
         return;
     }
-    ctx.rule("part M: every script of exactly n poll reactions over {N none, V valid, R RATE, Q (v5) valid asking for max+2, D DENY, U unknown KISS} against the real SourceTask::run with a harness-fired timer, for poll limits {4-10 default, 4-4, 4-6, 0-17, 6-6, 10-17}; part S: scripts over {N, V, R, Q} against SourceTask::spawn with the real Sleep on a paused clock; distinct = canonical observation differs");
+    ctx.rule("part M: every script of exactly n polls with at most k datagrams per poll over {V valid, R RATE, Q/J/G/H (v5) valid asking for max+2 / max+1 / 18 / 20, D DENY, U unknown KISS} against the real SourceTask::run with a harness-fired timer, for poll limits {4-10 default, 4-4, 4-6, 0-17, 6-6, 10-17, 17-17} and every controller desire min..=max for 0-17, 10-17, 17-17, 4-10, plus the RATE ladders 4->10, 10->17, 0->17; part S: scripts over {V, R, Q, J, G, H} against SourceTask::spawn with the real Sleep on a paused clock incl. exponents 17, 18, 20; distinct = canonical observation differs");
     rig::common_assumptions(&ctx);
     ctx.assume("part S decides 'the timer branch has not run' 8 scheduler rounds after virtual time was advanced to 1 ms below the bound: a tokio timer that is due is woken by the advance itself, no network is involved");
     let quick = ctx.quick();
-    let alpha = vec![Sym::N, Sym::V, Sym::R, Sym::Q, Sym::D, Sym::U];
+    let alpha = "VRQDU";
     let len = if quick { 5 } else { 7 };
     let mut plans = Vec::new();
     for (c, l) in [
@@ -339,10 +375,26 @@ fn check() {
         (cfg(Ver::V5, 4, 6, Ts::Sw), len),
         (cfg(Ver::Auto, 4, 10, Ts::Ka), len),
     ] {
-        plans.push(Plan { cfg: c, alphabet: alpha.iter().copied().filter(|s| s.applies(c.ver)).collect(), len: l });
+        plans.push(plan(c, alpha, 1, l));
     }
-    // the whole RATE ladder 4 -> 10 and past it
-    plans.push(Plan { cfg: cfg(Ver::V4, 4, 10, Ts::Sw), alphabet: vec![Sym::R, Sym::V], len: if quick { 9 } else { 12 } });
+    // two datagrams per poll (RATE twice, RATE then valid, ...)
+    plans.push(plan(cfg(Ver::V4, 4, 10, Ts::Sw), "VR", 2, if quick { 4 } else { 5 }));
+    plans.push(plan(cfg(Ver::V5, 4, 10, Ts::Sw), "VRQ", 2, if quick { 3 } else { 4 }));
+    // the whole RATE ladder 4 -> 10 and past it; 10 -> 17 and past it; 0 -> 17
+    plans.push(plan(cfg(Ver::V4, 4, 10, Ts::Sw), "RV", 1, if quick { 9 } else { 12 }));
+    plans.push(plan(cfg(Ver::V4, 10, 17, Ts::Sw), "RV", 1, if quick { 9 } else { 11 }));
+    plans.push(plan(cfg(Ver::V4, 0, 17, Ts::Kr), "R", 2, 9));
+    // every exponent min..=max as the controller's own desire
+    for (min, max) in [(0i8, 17i8), (10, 17), (17, 17), (4, 10)] {
+        for des in min..=max {
+            plans.push(plan(Cfg { des, ..cfg(Ver::V4, min, max, Ts::Sw) }, "VR", 1, 3));
+            plans.push(plan(Cfg { des, ..cfg(Ver::V5, min, max, if des % 2 == 0 { Ts::Kr } else { Ts::Ka }) }, "VRJGH", 1, if quick { 2 } else { 3 }));
+        }
+    }
+    // NTPv5 server requests above the configured maximum: max+1, max+2, 18, 20
+    plans.push(plan(cfg(Ver::V5, 4, 10, Ts::Sw), "VRQJGH", 1, if quick { 4 } else { 5 }));
+    plans.push(plan(cfg(Ver::V5, 10, 17, Ts::Sw), "VRQJGH", 1, if quick { 3 } else { 4 }));
+    plans.push(plan(cfg(Ver::V5, 17, 17, Ts::Kr), "VRQJGH", 1, if quick { 3 } else { 4 }));
     rig::explore(&ctx, "C10", &plans);
     part_s(&ctx);
     ctx.finish();
